@@ -585,8 +585,45 @@ def convert_contract(kind, isbin, sort):
             cl.append(("requested_order_kept", forall(i, z3.Implies(in_range(i, 0, n), out.labels.at(i) == e.labels.at(i)))))
         return cl
 
+    def replay(cm):
+        import json
+
+        import numpy as np
+        import pandas as pd
+
+        from flox.core import _convert_expected_groups_to_index
+
+        e = cm["expected_groups"][0]
+        if e is None or not isinstance(e.get("labels"), list):
+            return None, "nothing to replay"
+        labels = [float(x) for x in e["labels"]]
+        if kind == "IntervalIndex":
+            if len(labels) < 2 or any(b <= a for a, b in zip(labels, labels[1:])):
+                labels = sorted(set(labels)) or [0.0, 1.0]
+                if len(labels) < 2:
+                    labels = labels + [labels[-1] + 1]
+            given = pd.IntervalIndex.from_breaks(labels)[::-1] if len(labels) > 2 else pd.IntervalIndex.from_breaks(labels)
+        elif kind == "Index":
+            given = pd.Index(labels)
+        else:
+            given = np.array(labels)
+        (out,) = _convert_expected_groups_to_index((given,), isbin=(isbin,), sort=sort)
+        bad = []
+        must_sort = sort and not (isbin and kind != "IntervalIndex")
+        vals = list(out.left) if isinstance(out, pd.IntervalIndex) else list(out)
+        src = list(given.left) if isinstance(given, pd.IntervalIndex) else list(given)
+        if isinstance(out, pd.IntervalIndex) and isbin and kind != "IntervalIndex":
+            return False, json.dumps({"verdict": "held", "note": "edges become bins"})
+        if must_sort and any(b < a for a, b in zip(vals, vals[1:])):
+            bad.append("ascending_when_sort")
+        if must_sort and sorted(vals) != sorted(src):
+            bad.append("permutation")
+        if not must_sort and vals != src:
+            bad.append("requested_order_kept")
+        return bool(bad), json.dumps({"verdict": "violated" if bad else "held", "clauses": bad, "requested": [repr(x) for x in src], "sort": sort, "returned": [repr(x) for x in vals]})
+
     return Contract(qualname="_convert_expected_groups_to_index", file="flox/core.py", prefix=f"C16.convert_expected.{kind}.{'bin' if isbin else 'cat'}.{'sort' if sort else 'nosort'}", params=params, requires=requires,
-                    ensures=ensures, serves=("C16", "C05", "C07"), assumed=("Index.sort_values / np.sort: ascending permutation", "IntervalIndex.from_breaks keeps the edges in the given order", "pandas.Index constructor keeps the order"))
+                    ensures=ensures, replay=replay, serves=("C16", "C05", "C07"), assumed=("Index.sort_values / np.sort: ascending permutation", "IntervalIndex.from_breaks keeps the edges in the given order", "pandas.Index constructor keeps the order"))
 
 
 def all_convert():
